@@ -4,3 +4,4 @@ import XProofs.Properties.C15
 #print axioms Properties.C15.C15_reload_row
 #print axioms Properties.C15.C15_log_append_only
 #print axioms Properties.C15.C15_take_best_spec
+#print axioms Properties.C15.C15_reload_row_unit_weights
